@@ -165,7 +165,8 @@ func c20RefUDP(d []byte) (r c20UDPRef) {
 		return
 	}
 	if d[2] != 0 {
-		r.either = true // fragments: an implementation that does not support them must drop
+		// RFC 1928 section 7: an implementation that does not support fragmentation MUST drop any
+		// datagram whose FRAG field is other than X'00' - and this relay does not reassemble
 		return
 	}
 	if d[0] != 0 || d[1] != 0 {
